@@ -319,7 +319,7 @@ fn documents() -> Vec<(&'static str, String)> {
 					.map(|m| {
 						let mut parts = vec![format!("\"id\":\"l{m:02}\"")];
 						if m & 1 != 0 {
-							parts.push(format!("\"description\":\"d{m}\""));
+							parts.push(if m % 4 == 1 { "\"description\":\"\"".to_string() } else { format!("\"description\":\"d{m}\"") });
 						}
 						if m & 2 != 0 {
 							parts.push(format!("\"minzoom\":{}", m % 5));
